@@ -10,7 +10,7 @@ import operator
 from fractions import Fraction as F
 
 from .. import oracle as O
-from ..core import Stats, pmap
+from ..core import Stats, guarded, pmap
 from ..world import World
 
 A1 = ['i:2', 'D:0.5', 'F:-2/7']
@@ -147,6 +147,7 @@ def stored(w, sym, x, mode=None):
     return O.round_to(x, tm.quantum / w.um[sym].scale, mode or O.get_mode())
 
 
+@guarded('C02')
 def run_binop(w, op, kind, s1, a1, s2, a2, st=None):
     """-> list of (signature, message)"""
     Q = w.q
@@ -230,6 +231,7 @@ def run_binop(w, op, kind, s1, a1, s2, a2, st=None):
     return []
 
 
+@guarded('C02')
 def run_pow(w, kind, s, a, n, st=None):
     Q = w.q
     tname, dim, sc, ud, uf = udesc(w, s)
@@ -273,6 +275,7 @@ def run_pow(w, kind, s, a, n, st=None):
     return judge_qty(w, res, tm, (vx * sc) ** n, what, sig)
 
 
+@guarded('C02')
 def run_num(w, form, s, a, k, st=None):
     """number (op) quantity / unit; form in q*k k*q q/k k/q u*k k*u u/k k/u"""
     Q = w.q
@@ -439,10 +442,44 @@ def user_scripts(tier):
     return scripts
 
 
+def build_warm(script):
+    """Declare BASE, evaluate every unit pair once (results ignored; most of
+    them raise because their result type does not exist yet), then declare
+    the rest: the world is reached from a non-initial evaluation history."""
+    w = World()
+    for i, ev in enumerate(script):
+        if i == len(BASE):
+            syms = list(w.units)
+            for s1 in syms:
+                for s2 in syms:
+                    for f in (operator.mul, operator.truediv):
+                        for x, y in ((w.units[s1], w.units[s2]),
+                                     (w.units[s1].qty_cls(2, w.units[s1]),
+                                      w.units[s2].qty_cls(3, w.units[s2]))):
+                            try:
+                                f(x, y)
+                            except Exception:
+                                pass
+                for n in (-1, 2, 3):
+                    try:
+                        w.units[s1] ** n
+                    except Exception:
+                        pass
+        res = w.apply(ev)
+        if res[0] != 'ok':
+            return w, (ev, res)
+    return w, None
+
+
 def part_user(script, a1s, a2s):
     from .c01 import build_world
     st = Stats()
-    w, err = build_world(script)
+    warm = script and script[0] == 'warm'
+    if warm:
+        script = script[1]
+        w, err = build_warm(script)
+    else:
+        w, err = build_world(script)
     if err is not None:
         st.violation('C02:user-declaration-rejected',
                      f"valid declaration {err[0]} raised {err[1][1]}: "
@@ -461,8 +498,10 @@ def part_user(script, a1s, a2s):
                             st.paths += 1
                             for sig, msg in run_binop(w, op, kind, s1, a1,
                                                       s2, a2, st):
-                                st.violation(sig, msg, {
-                                    'world': script, 'op': op, 'kind': kind,
+                                st.violation(sig + (':warm' if warm else ''),
+                                             msg, {
+                                    'world': script, 'warm': bool(warm),
+                                    'op': op, 'kind': kind,
                                     'u1': s1, 'a1': a1, 'u2': s2, 'a2': a2})
         for n in range(-3, 4):
             for kind, a in (('u', 'i:1'), ('q', 'D:1.5'), ('q', 'i:100')):
@@ -485,6 +524,10 @@ def replay(case):
     from .c01 import build_world
     if case['world'] == 'catalogue':
         w = World(catalogue=True)
+    elif case.get('warm'):
+        w, err = build_warm(case['world'])
+        if err is not None:
+            return [('C02:user-declaration-rejected', str(err))]
     else:
         w, err = build_world(case['world'])
         if err is not None:
@@ -517,6 +560,7 @@ def run(tier, seed):
     total.merge(pmap(part_pow_num, [syms[i::16] for i in range(16)],
                      (amts, nums)))
     scripts = user_scripts(tier)
+    scripts = scripts + [['warm', sc] for sc in scripts]
     total.merge(pmap(part_user, scripts, (a1s[:2], a2s[:2]), fresh=True))
     total.extra['user_worlds'] = len(scripts)
     total.extra['unit_pairs'] = len(syms) ** 2
